@@ -3,13 +3,41 @@
 CONF = dict(
     cmd='c13',
     props='Props/C13.v',
-    rule='TODO',
-    assumptions=[],
-    trusted=[],
-    technique='TODO',
-    level_text='TODO',
-    level_note='TODO',
-    explanation='TODO',
+    rule=('(srv) histories of 1..6 crafted SCION datagrams sent on loopback to the real StartSCIONServer (its own port and its end-host port 30041) and the real '
+          'StartSCIONDispatcher, USE_MOCK_KEYS=true: IPv4/IPv6/mixed host addresses, empty / 1-3 segment SCION (up to 20 hops per segment) / complete and incomplete '
+          'one-hop paths, NTP requests valid or not, SCMP echo/traceroute/other, L4 ports = service port / another end-host port with a harness socket behind it / '
+          '30041; authenticator option valid, random or zero MAC, SPI of the other direction, other algorithm, other length, two authenticators in both orders, after '
+          'another option, non-zero timestamp/sequence number, with a hop-by-hop extension in front; then single-bit mutations of the MAC, the option metadata, the '
+          'common header, the address header, the path, the L4 header and the payload; repeats and mutated repeats of a verified datagram right after it. Every datagram '
+          'seen afterwards at any of 11 harness sockets (senders, forward targets, a socket at the SCION source address) is recorded; reply/no reply by a sentinel request '
+          'from the same socket. (cli) the real SCIONClient (MeasureClockOffsetSCION, recording filter and log) with authentication on/off, IPv4 or IPv6 underlay, '
+          'empty/SCION/one-hop path, 1..3 exchanges per client against a scripted next hop delivering 0..3 responses each: built by the harness (12 authenticator '
+          'variants, wrong ISD-AS/host, IPv4-mapped source, SCMP, NTP origin/metadata/timestamp defects) or the real listener\'s answer to the client\'s own request '
+          '(possibly damaged on the way there), each possibly with a one-bit mutation. (probe) datagrams whose MAC cannot be computed (unregistered path type) in '
+          'throw-away processes. Non-trivial: every history/exchange generated this way (each contains at least one datagram that reaches the authentication, '
+          'addressing or forwarding decision); distinct = distinct (kind, input)'),
+    assumptions=['ideal MAC for the mutation theorems (no two MAC inputs share a tag under one key; consistency shown by an injective instance); every other theorem holds for an arbitrary MAC function',
+                 'DRKey fetch outcome (key or failure) is a universally quantified input; with USE_MOCK_KEYS the harness and both ends use the all-zero key',
+                 'scionproto: parsing (gopacket DecodingLayerParser with the listener\'s / the client\'s own layer set), serialisation, Path.Reverse and the construction of the CMAC input are inputs: the harness parses every datagram with the same parser configuration, recomputes Path.Reverse and spao.ComputeAuthCMAC with the same library, and the runner checks that the model\'s queries are the ones these answers belong to',
+                 '"carries an authenticator" = the first authenticator option of the end-to-end extension (slayers.FindOption) with 28 bytes of data, the SPI of the direction and algorithm 0; an authenticator hidden behind another authenticator option is not looked at by either side',
+                 'the NTP part (payload validity, reply payload) is an input (C06/C09); a reversed path has a registered path type; a CMAC tag has 16 bytes (roundtrip theorem)',
+                 'whether the kernel delivered a receive timestamp (extra option in forwarded packets) is free'],
+    trusted=['modelled, not verified: gopacket + scionproto slayers/spao/path libraries, AES-CMAC, kernel UDP sockets and SO_REUSEPORT (one source 4-tuple stays on one listener goroutine, so the sentinel is handled after the probe)',
+             'the listeners and the client run in a child process of the harness; a dead or silent child is reported as a failing case'],
+    technique=('Coq proof by case analysis over the listener step and induction over the list of datagrams delivered to the client (retry rule), MAC / Path.Reverse / key fetch / NTP part '
+               'as universally quantified Section variables, ideal-MAC hypothesis only where a mutation has to change the tag; differential execution of the extracted model against the '
+               'real listener, dispatcher and client on loopback and evaluation of the C13 oracle on every observation'),
+    level_text=('Theorems hold for all packets (address families, path types and lengths, option lists, payloads), all listener configurations (own port, end-host port, dispatcher; '
+                'authentication on/off), all key-fetch outcomes, all MAC functions and all sequences of datagrams reaching a client: bad MAC never served / never accepted, reply to a '
+                'verified request is authenticated for and accepted by the requesting client, reply addressing, forwarded iff received on the end-host port for another port that is '
+                'not the end-host port. The model is tied to StartSCIONServer / StartSCIONDispatcher / MeasureClockOffsetSCION on every run; the oracle is evaluated on the implementation\'s observations'),
+    level_note=('Trusted: Coq kernel, the hand-written model (validated by the correspondence run), extraction, harness, scionproto/gopacket/kernel as inputs. Cryptographic strength is symbolic. '
+                'The oracle-holds-on-the-model statement is proved per clause (Prop-level theorems), not as one boolean theorem. No axioms (Closed under the global context).'),
+    explanation=('oracle clauses: (1) authenticator with client SPI/algorithm on an authenticating listener whose recomputed MAC differs => nothing is sent; (2) verified request => every reply carries the '
+                 'server-direction authenticator whose MAC equals the recomputed MAC of the reply, extension directly in front of UDP; (3) at most one datagram results, and it is either a reply at the '
+                 'sending socket with ISD-AS/host/ports exchanged, the recomputed reversed path, SCMP payload echoed, or a forward at the socket of (destination host, L4 port) with addressing, path and '
+                 'payload unchanged, only from port 30041 and never to 30041 or the service port; (4) a packet that is due for forwarding to a visible socket is forwarded; client: request of an '
+                 'authenticating client carries a valid client-direction authenticator, an accepted response does not carry a server-direction authenticator with a wrong MAC'),
     timeout_quick=900,
     timeout_thorough=3000,
 )
